@@ -874,7 +874,7 @@ def work(task, col):
             m = len(st)
             if m == 0:
                 continue
-            for cuts in reduced_splits(m, 1 if lab == "none" else 0):
+            for cuts in reduced_splits(m, 1 if (lab == "none" or cfg["socket_faults"]) else 0):
                 idx += 1
                 if idx % K != k:
                     continue
@@ -902,14 +902,14 @@ def run(ctx):
     scns = scenarios(tier)
     if ctx.quick:
         cfg = {"tier": tier, "kinds": [0, 1, 2, 3, 4, 5], "qmodes": ["none", "all"],
-               "fault_qmodes": ["all"], "full_split_upto": 4, "maxcuts": 1,
-               "msgfault_full_upto": 5, "socket_faults": False, "rcodes": 1,
+               "fault_qmodes": ["all"], "full_split_upto": 6, "maxcuts": 1,
+               "msgfault_full_upto": 6, "socket_faults": False, "rcodes": 1,
                "diff_records": 3, "diff_full_upto": 6}
         per_task = 2500
     else:
         cfg = {"tier": tier, "kinds": [0, 1, 2, 3, 4, 5], "qmodes": ["none", "all", "first"],
-               "fault_qmodes": ["all", "none"], "full_split_upto": 7, "maxcuts": 2,
-               "msgfault_full_upto": 6, "socket_faults": True, "rcodes": 3,
+               "fault_qmodes": ["all", "none"], "full_split_upto": 8, "maxcuts": 2,
+               "msgfault_full_upto": 8, "socket_faults": True, "rcodes": 3,
                "diff_records": 5, "diff_full_upto": 7}
         per_task = 6000
     ctx.rule = ("case = (pre-state zone, query type, transport, sequence of messages each with rcode, optional "
@@ -933,22 +933,32 @@ def run(ctx):
     ctx.extra["universe"] = [list(map(str, r)) for r in UNIVERSE]
     tasks = []
     nk = len(cfg["kinds"])
+    _ns = {}
+
+    def nsplits(scn, m, mode, maxcuts=1):
+        key = (scn["udp"], m, mode, maxcuts)
+        if key not in _ns:
+            _ns[key] = [len(c) + 1 for c in splits_for(scn, m, mode, maxcuts)]   # messages per division
+        return _ns[key]
+
+    def chunks(section, si, size):
+        K = max(1, -(-size * nk // per_task))
+        return [(section, si, k, K, cfg) for k in range(K)]
+
     for si, scn in enumerate(scns):
         n = len(scn["stream"])
-        size = len(all_splits(n)) * len(cfg["qmodes"]) * nk
-        K = max(1, -(-size // per_task))
-        tasks += [("splits", si, k, K, cfg) for k in range(K)]
-        nf = len(stream_faults(scn))
-        size = nf * (n + 2 if cfg["maxcuts"] == 1 else (n * n // 2 + 2)) * len(cfg["fault_qmodes"]) * nk
-        K = max(1, -(-size // per_task))
-        tasks += [("faults", si, k, K, cfg) for k in range(K)]
-        size = (n + 1) * (n + 1) * 6 * nk // 2
-        K = max(1, -(-size // per_task))
-        tasks += [("msgfaults", si, k, K, cfg) for k in range(K)]
-        if True:
-            size = (nf if cfg["socket_faults"] else 1) * 3 * nk * 3
-            K = max(1, -(-size // per_task))
-            tasks += [("socket", si, k, K, cfg) for k in range(K)]
+        tasks += chunks("splits", si, len(nsplits(scn, n, "all")) * len(cfg["qmodes"]))
+        faults = stream_faults(scn)
+        size = sum(len(nsplits(scn, len(st), "all" if len(st) <= cfg["full_split_upto"] else "reduced",
+                               cfg["maxcuts"])) for _, _, st in faults) * len(cfg["fault_qmodes"])
+        tasks += chunks("faults", si, size)
+        size = sum(nsplits(scn, n, "all" if n <= cfg["msgfault_full_upto"] else "reduced", cfg["maxcuts"])) \
+            * (cfg["rcodes"] + 3)
+        tasks += chunks("msgfaults", si, size)
+        smax = 1 if cfg["socket_faults"] else 0
+        size = 3 * (len(reduced_splits(n, 1)) + (sum(len(reduced_splits(len(st), smax)) for _, _, st in faults)
+                                                 if cfg["socket_faults"] else 0))
+        tasks += chunks("socket", si, size)
     size = 0
     for scn in diff_scenarios(cfg["diff_records"]):
         n = len(scn["stream"])
